@@ -25,6 +25,15 @@ pub enum AnyMap {
 /// (0 vertex, 1 edge, 2 face). A permutation of the registered kinds of that orbit.
 pub type KindOrder = [Vec<u8>; 3];
 
+/// Custom orbit policies exercised by C03: lists of images closed under inverses (0 and 1 come
+/// together; 2 and 3 are involutions), in every order — for these the forward closure the
+/// implementation computes is the definitional orbit. Indexes >= `N_CUSTOM_2D` need dimension 3.
+pub static CUSTOM_LISTS: [&[u8]; 15] = [
+    &[0, 1], &[1, 0], &[2], &[0, 1, 2], &[2, 1, 0], &[1, 2, 0], &[2, 0, 1],
+    &[3], &[2, 3], &[3, 2], &[0, 1, 3], &[3, 1, 0], &[0, 1, 2, 3], &[3, 2, 1, 0], &[2, 3, 0, 1],
+];
+pub const N_CUSTOM_2D: usize = 7;
+
 pub fn policy_of(p: Policy) -> OrbitPolicy {
     match p {
         Policy::Vertex => OrbitPolicy::Vertex,
@@ -197,6 +206,12 @@ impl AnyMap {
             (AnyMap::M3(m), 3) => m.i_cell::<3>(d).collect(),
             _ => panic!("no {o}-cells in this dimension"),
         }
+    }
+    pub fn custom_orbit(&self, list: usize, d: u32) -> Vec<u32> {
+        both!(self, |m| m.orbit(OrbitPolicy::Custom(CUSTOM_LISTS[list]), d).collect())
+    }
+    pub fn custom_orbit_tx(&self, t: &mut Transaction, list: usize, d: u32) -> StmClosureResult<Vec<u32>> {
+        both!(self, |m| m.orbit_transac(t, OrbitPolicy::Custom(CUSTOM_LISTS[list]), d).collect::<Result<Vec<u32>, _>>())
     }
     pub fn orbit_tx(&self, t: &mut Transaction, p: Policy, d: u32) -> StmClosureResult<Vec<u32>> {
         both!(self, |m| m.orbit_transac(t, policy_of(p), d).collect::<Result<Vec<u32>, _>>())
